@@ -16,9 +16,9 @@ RULE = ("exhaustive 8/16-bit varints (quick: all 8-bit, seeded slice of 16-bit);
 THEOREM_BACKED = ('varint_roundtrip, zigzag_roundtrip, scalar_roundtrip, bits_roundtrip, fastdiv_correct (generated table),'
                   ' rabs_roundtrip, ransBit/adaptive/direct/folded/symbolBit_roundtrip, getBit_past_end, direct_past_end, '
                   'encoder_buffer_refines_items, buffer_items_roundtrip (stateful EncoderBuffer vs item-wise '
-                  'specification); source_toSymbol_is_model / source_ofSymbol_is_model (ConvertSignedIntToSymbol<int32_t> /'
-                  " ConvertSymbolToSignedInt<uint32_t>, translated from clang's AST on every run, are the model's toSymbol "
-                  '32 / ofSymbol)')
+                  'specification); 12 obligations source_*_is_model (zig-zag conversions, EncodeVarint<u32/u64>, '
+                  'DecodeVarintUnsigned as a whole and its max_depth, ans_write_end, ans_read_init x0..x2, ReverseBits32 / '
+                  "CountOneBits32 / CopyBits32: translated from clang's AST on every run, equal to the model functions)")
 CORRESPONDENCE_ONLY = ""
 EXPLANATION = "Lean theorems about the executable model of the primitives + byte-exact correspondence with the real classes"
 
